@@ -4,7 +4,7 @@ CONSTANTS
   PathAtoms = {97, 98, 47, 37}
   BodyAtoms = {97, 34, 92}
   MaxLenName = 3
-  MaxLenBody = 2
+  MaxLenBody = 0
   MaxSteps = 3
   MaxUpload = 6
   SniffLen = 2
